@@ -136,14 +136,24 @@ def t_loads(eng):
     eng.summaries['format_float'] = K.sum_format_float
     eng.inline.add('Mininec.f')
     pulse = SObj('Pulse', label='pulse')
+    pulse2 = SObj('Pulse', label='pulse2')
+    K.distinct(eng, pulse, pulse2)
+    # two pulses of ONE load that may lie on the same geo object: the load's impedance is a function of (frequency, pulse)
+    # (a distributed load differs from pulse to pulse of one wire), so each line carries the value of its own pulse
+    gsame = SObj('Geobj', label='g')
+    pulse.fields['geobj'] = gsame
+    pulse2.fields['geobj'] = gsame
     imp = fresh_cx('imp')
-    eng.summaries['_Load.impedance'] = lambda e, a, k: imp
-    eng.summaries['Laplace_Load.impedance'] = lambda e, a, k: imp
+    imp2 = fresh_cx('imp2')
+    by_pulse = lambda e, a, k: imp if a[2] is pulse else imp2
+    eng.summaries['_Load.impedance'] = by_pulse
+    eng.summaries['Laplace_Load.impedance'] = by_pulse
     ld = SObj('Impedance_Load', label='load')
-    ld.fields['pulses'] = SList([('conc', [pulse])])
+    ld.fields['pulses'] = SList([('conc', [pulse, pulse2])])
     s = eng.call_qual('_Load.as_mininec', [ld, parent])
     audit(eng, P + '/_Load.as_mininec', s,
-          [('pulse-number', r_add(eng.getfield(pulse, 'idx'), 1)), ('resistance', imp.re), ('reactance', imp.im)])
+          [('pulse-number', r_add(eng.getfield(pulse, 'idx'), 1)), ('resistance', imp.re), ('reactance', imp.im),
+           ('pulse-number', r_add(eng.getfield(pulse2, 'idx'), 1)), ('resistance', imp2.re), ('reactance', imp2.im)])
     ll = SObj('Laplace_Load', label='lload')
     a0, a1, b0, b1 = (fresh_real(x) for x in ('a0', 'a1', 'b0', 'b1'))
     ll.fields.update({'pulses': SList([('conc', [pulse])]), 'degree': 1, 'a': NDArr([a0, a1]), 'b': NDArr([b0, b1])})
